@@ -174,8 +174,8 @@ def frame_header_verdict(f, skip_utf8=False):
         c = close_code_class(code)
         if c == "reject":
             return "reject"
-        if n > 2 and not utf8_ok(f.payload[2:]):
-            return "unspec" if skip_utf8 else "reject"
+        if n > 2 and not utf8_ok(f.payload[2:]) and not skip_utf8:
+            return "reject"  # (with validation switched off the bytes pass through unchanged: C06)
         if c == "unspec":
             return "unspec"
     return "ok"
